@@ -118,7 +118,7 @@ pub fn run(ctx: &Ctx, stats: &mut Stats) {
         stats.inconclusive.push("vshuttle binary missing".into());
         return;
     }
-    let it = ctx.tier.pick(30_000u64, 1_200_000u64);
+    let it = ctx.tier.pick(100_000u64, 2_000_000u64);
     let seed = ctx.stage_seed("shuttle-pipeline");
     shuttle_campaign(ctx, stats, "shuttle-random", &ShuttleRun { scenario: "pipeline".into(), seed, iters: it, pct_depth: None, schedule: None });
     for d in [2u32, 3, 4] {
